@@ -898,7 +898,7 @@ def _loop_covers(ctx, g, F, loop, check_node, ivar, container):
     for x in walk(init) if isinstance(init, dict) and 'kind' in init else ():
         if x.get('kind') == 'VarDecl' and '%s#%s' % (x.get('name'), x.get('id')) == ivar:
             ini = kids(x)
-            okinit = bool(ini) and keys.key(ini[-1]) == 'n:0'
+            okinit = bool(ini) and keys.key(ini[-1]) in ('n:0', 'n:1')      # (from 1: the first entry has no predecessor)
     c = peel(cond) if isinstance(cond, dict) and 'kind' in cond else None
     okcond = False
     if c is not None and c.get('kind') == 'BinaryOperator' and c.get('opcode') in ('!=', '<'):
